@@ -31,7 +31,7 @@
    entries is far outside anything the library can allocate, so the model's [dad] is the code's on every reachable
    input.
 
-   Axioms: those of the operation bridge (the standard library's FloatAxioms / Uint63 specifications of the
+   Assumptions reported: those of the operation bridge (the standard library's FloatAxioms / Uint63 specifications of the
    primitives, through Flocq) and the classical reals. *)
 From Coq Require Import Reals ZArith Floats.
 From Flocq Require Import Core.Raux.
